@@ -517,6 +517,19 @@ theorem src_helper_mode_flag_scratch :
     helperPredictForwardModes .TF = [("predictor_model", "eval")] ∧
     (helperTrainStepForwardModes .PT).contains ("predictor_model", "train") = true := by decide +kernel
 
+/-- F5g (KNOWN finding, kept visible): `CorrelationRemover.transform` calls `validate_data(self, X)` with sklearn's default
+    `reset=True` (_correlation_remover.py:133), so a TRANSFORM rewrites the estimator's `n_features_in_` /
+    `feature_names_in_` from the array it is given (replayed by the harness: fit on 3 columns, `transform` of 4 columns raises
+    ValueError and leaves `n_features_in_ = 4`).  The adversarial estimators pass `reset=False`; no other class hands itself to
+    `validate_data` while predicting.  No fairlearn code reads the two attributes (CorrelationRemover checks its own
+    `_n_features_in_`), which is why the flag below — about the state a later prediction or fit can see — stays on. -/
+theorem src_cr_transform_resets_sklearn_attrs :
+    predictValidateResets .CR = ["transform"] ∧
+    (∀ c ∈ [EstCls.TO, .EG, .GS, .ADV, .ADVC, .ADVR], predictValidateResets c = []) ∧
+    (predictReads .CR).contains "n_features_in_" = false ∧ (predictReads .CR).contains "feature_names_in_" = false ∧
+    (fitHistoryReads .CR).all (fun x => !x.startsWith "n_features_in_ " && !x.startsWith "feature_names_in_ ") = true := by
+  decide +kernel
+
 /-- THE predict-purity flag of every estimator class (`predictAssigned` empty, escapes trusted, helper calls resolved,
     every helper class pure) is on — every `…src` machine below runs its prediction step through this flag -/
 theorem src_predict_pure_flags : ∀ c ∈ estimators, predictPureSrc c = true := by decide +kernel
